@@ -36,22 +36,118 @@ INV = {'scale_to_phys': 'scale_to_norm', 'scale_to_norm': 'scale_to_phys'}
 
 
 # --------------------------------------------------------------------------- ctx
-def _effects(stmts):
-    """[(guard dump, iterable dump, method)] for `if G: for v in IT: v.method()` statement lists."""
+def _const_of(e, env):
+    """Constant value of a test expression under the constant-parameter environment, or None."""
+    if isinstance(e, ast.Constant):
+        return (e.value,)
+    if isinstance(e, ast.Name) and e.id in env:
+        return (env[e.id],)
+    if isinstance(e, ast.UnaryOp) and isinstance(e.op, ast.Not):
+        v = _const_of(e.operand, env)
+        return None if v is None else (not v[0],)
+    return None
+
+
+def _effects(stmts, repo=None, cls=None, env=None, guards=(), depth=0, helpers=None):
+    """[(guards, iterable dump, method)] of a statement list made of
+         if G: ...            (G a run-time flag: recorded as a guard; G a constant under `env`: branch taken)
+         for v in IT: v.m()   (possibly selected by a constant test)
+         self.helper(consts)  (inlined with its parameters bound to the constant arguments)
+    None when any statement has another shape.  `helpers` collects the Funcs that were inlined."""
+    env = env or {}
     out = []
     for st in stmts:
-        if not isinstance(st, ast.If) or st.orelse:
-            return None
-        for inner in st.body:
-            if not (isinstance(inner, ast.For) and len(inner.body) == 1 and not inner.orelse and
-                    isinstance(inner.body[0], ast.Expr) and isinstance(inner.body[0].value, ast.Call)):
+        if isinstance(st, ast.Pass):
+            continue
+        if isinstance(st, ast.If):
+            cv = _const_of(st.test, env)
+            if cv is not None:
+                sub = _effects(st.body if cv[0] else st.orelse, repo, cls, env, guards, depth, helpers)
+            else:
+                a = _effects(st.body, repo, cls, env, guards + ((astx.dump(st.test), True),), depth, helpers)
+                b = _effects(st.orelse, repo, cls, env, guards + ((astx.dump(st.test), False),), depth, helpers)
+                sub = None if a is None or b is None else a + b
+            if sub is None:
                 return None
-            c = inner.body[0].value
-            if not (isinstance(c.func, ast.Attribute) and astx.same(c.func.value, inner.target)
-                    and not c.args and not c.keywords):
+            out += sub
+            continue
+        if isinstance(st, ast.For) and not st.orelse and isinstance(st.target, ast.Name):
+            inner = _loop_calls(st.body, st.target, env)
+            if inner is None:
                 return None
-            out.append((astx.dump(st.test), astx.dump(inner.iter), c.func.attr))
+            out += [(tuple(sorted(guards)), astx.dump(st.iter), m) for m in inner]
+            continue
+        if (isinstance(st, ast.Expr) and isinstance(st.value, ast.Call) and repo is not None and depth < 3
+                and isinstance(st.value.func, ast.Attribute) and astx.path(st.value.func.value) == 'self'):
+            c = st.value
+            h = repo.lookup(cls[0], cls[1], c.func.attr) if cls is not None else None
+            if (h is None or h.node.args.vararg or h.node.args.kwarg or h.decorators()
+                    or repo.overriders(cls[0], cls[1], c.func.attr)):
+                return None
+            params = [a.arg for a in h.node.args.args[1:]] + [a.arg for a in h.node.args.kwonlyargs]
+            henv = {}
+            for i, a in enumerate(c.args):
+                if i >= len(params) or not isinstance(a, ast.Constant):
+                    return None
+                henv[params[i]] = a.value
+            for k in c.keywords:
+                if k.arg not in params or not isinstance(k.value, ast.Constant):
+                    return None
+                henv[k.arg] = k.value.value
+            if set(henv) != set(params):
+                return None
+            # parameters must not be rebound inside the helper
+            for n in astx.walk(h.node):
+                if isinstance(n, ast.Name) and isinstance(n.ctx, ast.Store) and n.id in henv:
+                    return None
+            sub = _effects(astx.strip_doc(h.node.body), repo, cls, henv, guards, depth + 1, helpers)
+            if sub is None:
+                return None
+            if helpers is not None:
+                helpers.append(h)
+            out += sub
+            continue
+        return None
     return out
+
+
+def _loop_calls(body, target, env):
+    """Methods called on the loop variable by a loop body of `v.m()` statements / constant selections."""
+    ms = []
+    for st in body:
+        if isinstance(st, ast.If):
+            cv = _const_of(st.test, env)
+            if cv is None:
+                return None
+            sub = _loop_calls(st.body if cv[0] else st.orelse, target, env)
+            if sub is None:
+                return None
+            ms += sub
+        elif (isinstance(st, ast.Expr) and isinstance(st.value, ast.Call) and
+              isinstance(st.value.func, ast.Attribute) and astx.same(st.value.func.value, target)
+              and not st.value.args and not st.value.keywords):
+            ms.append(st.value.func.attr)
+        elif isinstance(st, ast.Pass):
+            continue
+        else:
+            return None
+    return ms
+
+
+def ctx_helpers(repo):
+    """Helper methods through which the two context managers apply their effects (inlined by C08.ctx)."""
+    hs = []
+    for qn in ('System._unscaled_context', 'System._scaled_context_all'):
+        fn = repo.try_func(SYSTEM, qn)
+        if fn is None:
+            continue
+        body = astx.strip_doc(fn.node.body)
+        trys = [s for s in body if isinstance(s, ast.Try)]
+        if len(trys) == 1 and body[-1] is trys[0]:
+            cls = (SYSTEM, 'System')
+            _effects(body[:-1], repo, cls, helpers=hs)
+            _effects(trys[0].finalbody, repo, cls, helpers=hs)
+    return {h.ident: h for h in hs}
 
 
 @rule('C08.ctx', floor=2)
@@ -75,8 +171,9 @@ def ctx(repo, out):
                 out.unsure(fn, fn.node, 'unrecognised context-manager shape')
             continue
         t = trys[0]
-        pre = _effects(body[:-1])
-        post = _effects(t.finalbody)
+        cls = (SYSTEM, 'System')
+        pre = _effects(body[:-1], repo, cls)
+        post = _effects(t.finalbody, repo, cls)
         has_yield = any(isinstance(n, ast.Yield) for s in t.body for n in astx.walk(s))
         if not has_yield or t.handlers:
             out.unsure(fn, t, 'yield not directly in try body / handlers present')
@@ -85,7 +182,11 @@ def ctx(repo, out):
             out.bad(fn, t, 'no finally block: vectors are not rescaled when the body raises', key='ctx-finally')
             continue
         if pre is None or post is None:
-            out.unsure(fn, fn.node, 'effect list not in the `if guard: for vec in it: vec.m()` form')
+            out.unsure(fn, fn.node, 'effect list not in the `if guard: for vec in it: vec.m()` form '
+                       '(also through self.<helper>(constants))')
+            continue
+        if not pre:
+            out.unsure(fn, fn.node, 'no effect before the yield')
             continue
         want = sorted((g, it, INV.get(m, '?')) for g, it, m in pre)
         got = sorted(post)
@@ -102,40 +203,137 @@ def ctx(repo, out):
 
 
 # --------------------------------------------------------------------------- vec
-def _leafs(stmts, cond=()):
-    """Decision tree of a method body -> [(tuple of (test dump, polarity)), call]"""
-    out = []
-    for st in stmts:
-        if isinstance(st, ast.If):
-            out += _leafs(st.body, cond + ((astx.dump(st.test), True),))
-            out += _leafs(st.orelse, cond + ((astx.dump(st.test), False),))
-        elif isinstance(st, ast.Expr) and isinstance(st.value, ast.Call):
-            out.append((cond, st.value))
-        elif isinstance(st, ast.Pass):
-            continue
+def _atom(e):
+    """(dump of the positive atom of a test, polarity): `not X`, `X is not Y`, `X != Y` flip polarity."""
+    pol = True
+    while True:
+        if isinstance(e, ast.UnaryOp) and isinstance(e.op, ast.Not):
+            e, pol = e.operand, not pol
+        elif isinstance(e, ast.Compare) and len(e.ops) == 1 and isinstance(e.ops[0], (ast.IsNot, ast.NotEq)):
+            op = ast.Is() if isinstance(e.ops[0], ast.IsNot) else ast.Eq()
+            e, pol = ast.Compare(left=e.left, ops=[op], comparators=e.comparators), not pol
         else:
-            raise AnalysisError(f'unrecognised statement in scale method: {astx.src(st)}')
-    return out
+            return astx.dump(e), pol
+
+
+class _Subst(ast.NodeTransformer):
+    def __init__(self, env):
+        self.env = env
+
+    def visit_Name(self, n):
+        return self.env.get(n.id, n)
+
+
+def _paths(stmts, what):
+    """All execution paths of a straight-line/if/return body -> [(frozenset of (atom, polarity), [op])].
+
+    Ops are Call expression statements and AugAssigns with local aliases substituted away
+    (`a, b = X; f(a, b)` == `f(X[0], X[1])`).  Paths whose conditions contradict are dropped.
+    Anything else (loops, try, returns with a value, calls in assignments) -> AnalysisError."""
+    done = []
+
+    def run(stmts, conds, env, ops, k):
+        """Walk *stmts*; k(conds, env, ops) continues after the list; a return ends the path."""
+        if not stmts:
+            return k(conds, env, ops)
+        st, rest = stmts[0], stmts[1:]
+        if isinstance(st, ast.Pass):
+            return run(rest, conds, env, ops, k)
+        if isinstance(st, ast.Return) and st.value is None:
+            done.append((conds, ops))
+            return
+        if isinstance(st, ast.If):
+            atom, pol = _atom(st.test)
+            if any(isinstance(n, ast.Call) for n in astx.walk(st.test)):
+                raise AnalysisError(f'unrecognised statement in {what}: {astx.src(st)}')
+            for branch, p_ in ((st.body, pol), (st.orelse, not pol)):
+                if (atom, not p_) in conds:
+                    continue        # contradicts an earlier test of the same atom
+                run(list(branch), conds | {(atom, p_)}, dict(env), list(ops),
+                    lambda c, e, o: run(rest, c, e, o, k))
+            return
+        if isinstance(st, ast.Assign) and len(st.targets) == 1 and \
+                not any(isinstance(n, ast.Call) for n in astx.walk(st.value)):
+            tgt = st.targets[0]
+            val = _Subst(env).visit(astx._copy(st.value)) if env else st.value
+            if isinstance(tgt, ast.Name):
+                env = dict(env)
+                env[tgt.id] = val
+                return run(rest, conds, env, ops, k)
+            if isinstance(tgt, ast.Tuple) and all(isinstance(e, ast.Name) for e in tgt.elts):
+                env = dict(env)
+                for i, e in enumerate(tgt.elts):
+                    env[e.id] = ast.Subscript(value=val, slice=ast.Constant(value=i), ctx=ast.Load())
+                return run(rest, conds, env, ops, k)
+        if isinstance(st, ast.Assign) and len(st.targets) == 1 and isinstance(st.targets[0], ast.Name) \
+                and isinstance(st.value, ast.Call) and astx.call_name(st.value) == 'self.asarray':
+            env = dict(env)
+            env[st.targets[0].id] = st.value        # the live-data handle (checked by the caller)
+            return run(rest, conds, env, ops + [('data', st.targets[0].id, st.value)], k)
+        if isinstance(st, ast.Expr) and isinstance(st.value, ast.Call):
+            c = _Subst(env).visit(astx._copy(st.value)) if env else st.value
+            return run(rest, conds, env, ops + [('call', c, st)], k)
+        if isinstance(st, ast.AugAssign):
+            val = _Subst(env).visit(astx._copy(st.value)) if env else st.value
+            tgt = env.get(st.target.id) if isinstance(st.target, ast.Name) else None
+            return run(rest, conds, env, ops + [('aug', type(st.op).__name__, astx.dump(val),
+                                                 astx.dump(tgt) if tgt is not None else astx.path(st.target), st)], k)
+        raise AnalysisError(f'unrecognised statement in {what}: {astx.src(st)}')
+
+    run(list(stmts), frozenset(), {}, [], lambda c, e, o: done.append((c, o)))
+    return done
+
+
+def _norm_args(call):
+    """Argument dumps of a call; `X[0], X[1]` (all of a 2-sequence) is written `*X`."""
+    args = list(call.args)
+    if (len(args) == 2 and all(isinstance(a, ast.Subscript) and isinstance(a.slice, ast.Constant) for a in args)
+            and [a.slice.value for a in args] == [0, 1] and astx.same(args[0].value, args[1].value)
+            and not call.keywords):
+        return ['*' + astx.dump(args[0].value)]
+    out = []
+    for a in args:
+        out.append('*' + astx.dump(a.value) if isinstance(a, ast.Starred) else astx.dump(a))
+    return out + [f'{k.arg}={astx.dump(k.value)}' for k in call.keywords]
 
 
 def _ops(fn):
-    """Sequence of in-place ops of _scale_forward/_scale_reverse: [(op, operand, guard)] + data expr."""
-    data_expr = None
-    seq = []
-    for st in astx.strip_doc(fn.node.body):
-        if isinstance(st, ast.Assign) and len(st.targets) == 1 and isinstance(st.targets[0], ast.Name):
-            data_expr = (st.targets[0].id, st.value)
-        elif isinstance(st, ast.AugAssign):
-            seq.append((type(st.op).__name__, astx.dump(st.value), None, astx.path(st.target)))
-        elif isinstance(st, ast.If) and not st.orelse and len(st.body) == 1 and isinstance(st.body[0], ast.AugAssign):
-            a = st.body[0]
-            seq.append((type(a.op).__name__, astx.dump(a.value), astx.dump(st.test), astx.path(a.target)))
-        else:
-            raise AnalysisError(f'unrecognised statement in {fn.qualname}: {astx.src(st)}')
-    return data_expr, seq
+    """{path conditions: [(op, operand dump)]} of _scale_forward/_scale_reverse + live-data verdict."""
+    table = {}
+    live = True
+    for conds, ops in _paths(astx.strip_doc(fn.node.body), fn.qualname):
+        seq = []
+        data = None
+        for o in ops:
+            if o[0] == 'data':
+                c = o[2]
+                if c.args or any(k.arg == 'copy' for k in c.keywords):
+                    live = False
+                data = astx.dump(c)
+            elif o[0] == 'aug':
+                if data is None or o[3] != data:
+                    live = False
+                seq.append((o[1], o[2]))
+            else:
+                raise AnalysisError(f'unrecognised statement in {fn.qualname}: {astx.src(o[2])}')
+        if data is None:
+            live = False
+        table[conds] = seq
+    return table, live
 
 
 _OPINV = {'Sub': 'Add', 'Add': 'Sub', 'Div': 'Mult', 'Mult': 'Div'}
+
+
+def _leafs(fn):
+    """{path conditions: the single primitive call made on that path} of scale_to_norm/scale_to_phys."""
+    out = {}
+    for conds, ops in _paths(astx.strip_doc(fn.node.body), fn.qualname):
+        calls = [o for o in ops if o[0] == 'call']
+        if len(calls) != 1 or len(ops) != 1:
+            raise AnalysisError(f'{fn.qualname}: path {sorted(conds)} does not make exactly one primitive call')
+        out[conds] = calls[0]
+    return out
 
 
 @rule('C08.vec', floor=3)
@@ -143,60 +341,69 @@ def vec(repo, out):
     """scale_to_norm/scale_to_phys and _scale_forward/_scale_reverse are exact inverses of each other."""
     fwd = repo.func(DVEC, 'DefaultVector._scale_forward')
     rev = repo.func(DVEC, 'DefaultVector._scale_reverse')
-    d1, s1 = _ops(fwd)
-    d2, s2 = _ops(rev)
+    t1, live1 = _ops(fwd)
+    t2, live2 = _ops(rev)
     ok = True
-    for fn, d in ((fwd, d1), (rev, d2)):
-        if d is None or not (isinstance(d[1], ast.Call) and astx.call_name(d[1]) == 'self.asarray'
-                             and not d[1].args and not any(k.arg == 'copy' for k in d[1].keywords)):
+    for fn, live in ((fwd, live1), (rev, live2)):
+        if not live:
             out.bad(fn, fn.node, 'must operate in place on self.asarray() (the live data, not a copy)',
                     key='vec-live-data')
             ok = False
-    if ok and any(t != d1[0] for *_, t in s1) or any(t != d2[0] for *_, t in s2):
-        out.bad(fwd, fwd.node, 'in-place operations do not target the live data array', key='vec-live-data')
-        ok = False
-    want = [(_OPINV.get(op, '?'), val, g) for op, val, g, _ in reversed(s1)]
-    got = [(op, val, g) for op, val, g, _ in s2]
     if ok:
-        if want != got:
-            out.bad(rev, rev.node, '_scale_reverse is not the inverse sequence of _scale_forward '
-                    f'(forward ops {[o for o, *_ in s1]}, reverse ops {[o for o, *_ in s2]}; inverse needs '
-                    'reversed order, inverse operators, same operands and guards)', key='vec-inverse-seq')
-        elif [op for op, *_ in s1] != ['Sub', 'Div']:
-            out.bad(fwd, fwd.node, '_scale_forward must be (x - adder) / scaler', key='vec-forward-form')
+        if set(t1) != set(t2):
+            out.bad(rev, rev.node, '_scale_reverse is not the inverse sequence of _scale_forward: the two '
+                    f'branch on different conditions ({sorted(map(sorted, t1))} vs {sorted(map(sorted, t2))})',
+                    key='vec-inverse-seq')
         else:
-            out.ok(fwd, fwd.node, '_scale_forward = (-= adder | adder is not None; /= scaler); '
-                   '_scale_reverse = inverse sequence')
+            bad = False
+            for conds, s1 in t1.items():
+                s2 = t2[conds]
+                want = [(_OPINV.get(op, '?'), val) for op, val in reversed(s1)]
+                if want != s2:
+                    out.bad(rev, rev.node, '_scale_reverse is not the inverse sequence of _scale_forward '
+                            f'on path {sorted(conds)} (forward ops {[o for o, _ in s1]}, reverse ops '
+                            f'{[o for o, _ in s2]}; inverse needs reversed order, inverse operators, same '
+                            'operands and guards)', key='vec-inverse-seq')
+                    bad = True
+            full = sorted(([o for o, _ in s] for s in t1.values()), key=len)
+            if not bad:
+                if full != [['Div'], ['Sub', 'Div']]:
+                    out.bad(fwd, fwd.node, '_scale_forward must be (x - adder) / scaler, the subtraction '
+                            f'skipped only when there is no adder (paths: {full})', key='vec-forward-form')
+                else:
+                    out.ok(fwd, fwd.node, '_scale_forward = (-= adder | adder is not None; /= scaler); '
+                           '_scale_reverse = inverse sequence')
     norm = repo.func(DVEC, 'DefaultVector.scale_to_norm')
     phys = repo.func(DVEC, 'DefaultVector.scale_to_phys')
-    ln = _leafs(astx.strip_doc(norm.node.body))
-    lp = dict((c, call) for c, call in _leafs(astx.strip_doc(phys.node.body)))
+    ln = _leafs(norm)
+    lp = _leafs(phys)
     prim_inv = {'_scale_forward': '_scale_reverse', '_scale_reverse': '_scale_forward'}
     n_ok = 0
-    for cond, call in ln:
+    for cond, (_, call, st1) in ln.items():
         other = lp.get(cond)
+        cs = sorted(cond)
         if other is None:
-            out.bad(phys, phys.node, f'scale_to_phys has no branch for condition {cond} of scale_to_norm',
+            out.bad(phys, phys.node, f'scale_to_phys has no branch for condition {cs} of scale_to_norm',
                     key='vec-branches')
             continue
-        m1, m2 = astx.callee_attr(call), astx.callee_attr(other)
-        a1 = [astx.dump(a) for a in call.args]
-        a2 = [astx.dump(a) for a in other.args]
-        if prim_inv.get(m1) != m2:
-            out.bad(phys, other, f'branch {cond}: scale_to_norm calls {m1} but scale_to_phys calls {m2}; '
+        _, ocall, st2 = other
+        m1, m2 = astx.callee_attr(call), astx.callee_attr(ocall)
+        a1, a2 = _norm_args(call), _norm_args(ocall)
+        if prim_inv.get(m1) != m2 or astx.path(call.func.value) != 'self' or astx.path(ocall.func.value) != 'self':
+            out.bad(phys, st2, f'branch {cs}: scale_to_norm calls {m1} but scale_to_phys calls {m2}; '
                     'they must be inverse primitives', key='vec-branch-inverse')
         elif a1 != a2:
-            out.bad(phys, other, f'branch {cond}: the two directions use different scaling arguments '
-                    f'({astx.src(call)} vs {astx.src(other)})', key='vec-branch-args')
+            out.bad(phys, st2, f'branch {cs}: the two directions use different scaling arguments '
+                    f'({astx.src(st1)} vs {astx.src(st2)})', key='vec-branch-args')
         else:
             # direction: in fwd mode norm = forward; rev mode (linear vectors) swaps
-            is_rev = any('rev' in c and pol for c, pol in cond)
+            is_rev = any(("'rev'" in c and pol) or ("'fwd'" in c and not pol) for c, pol in cond)
             if (m1 == '_scale_forward') == is_rev:
-                out.bad(norm, call, f'branch {cond}: scale_to_norm must use '
+                out.bad(norm, st1, f'branch {cs}: scale_to_norm must use '
                         f"{'_scale_reverse' if is_rev else '_scale_forward'}", key='vec-branch-direction')
             else:
                 n_ok += 1
-    if len(lp) != len(ln):
+    if set(lp) != set(ln):
         out.bad(phys, phys.node, 'scale_to_norm and scale_to_phys have different branch structure',
                 key='vec-branches')
     if n_ok:
@@ -635,6 +842,18 @@ WHO = {
 @rule('C08.who', floor=10)
 def who(repo, out):
     """scale_to_norm/scale_to_phys are only called from the tabled sites; Group._transfer pairs them."""
+    helpers = ctx_helpers(repo)
+    for h in helpers.values():
+        # a helper inlined by C08.ctx is a legitimate site only if the contexts are its sole users
+        for rel in repo.shipped():
+            if h.name not in repo.source(rel):
+                continue
+            for f in repo.module(rel).funcs.values():
+                for n in astx.walk(f.node):
+                    if isinstance(n, ast.Attribute) and n.attr == h.name and (rel, f.qualname) not in WHO \
+                            and f.ident not in helpers:
+                        out.bad(f, astx.stmt_of(n), f'{h.name} (which rescales vectors for the scaling contexts) '
+                                'is used outside the tabled sites', key='who-scale-call')
     for rel in repo.shipped():
         src = repo.source(rel)
         if 'scale_to_norm' not in src and 'scale_to_phys' not in src:
@@ -645,6 +864,8 @@ def who(repo, out):
                 if astx.callee_attr(c) in INV and isinstance(c.func, ast.Attribute):
                     if (rel, f.qualname) in WHO:
                         out.ok(f, astx.stmt_of(c), WHO[(rel, f.qualname)])
+                    elif f.ident in helpers:
+                        out.ok(f, astx.stmt_of(c), 'helper of the scaling contexts (inlined and mirrored by C08.ctx)')
                     else:
                         out.bad(f, astx.stmt_of(c), f'{astx.callee_attr(c)} called outside the tabled sites: '
                                 'the scaling state of the vector is no longer paired by construction',
@@ -712,6 +933,24 @@ def who(repo, out):
 
 
 # --------------------------------------------------------------------------- self-test
+
+_CTX_ALL_OLD = ("        if self._has_output_scaling:\n            for vec in self._vectors['output'].values():\n                vec.scale_to_norm()\n"
+                "        if self._has_resid_scaling:\n            for vec in self._vectors['residual'].values():\n                vec.scale_to_norm()\n\n"
+                "        try:\n\n            yield\n\n        finally:\n\n"
+                "            if self._has_output_scaling:\n                for vec in self._vectors['output'].values():\n                    vec.scale_to_phys()\n"
+                "            if self._has_resid_scaling:\n                for vec in self._vectors['residual'].values():\n                    vec.scale_to_phys()\n")
+
+
+def _ctx_all_helper(res_else='res_vec.scale_to_phys()', extra=''):
+    return ("        self._rescale_all(to_norm=True)\n\n        try:\n\n            yield\n\n        finally:\n\n"
+            "            self._rescale_all(False)\n" + extra + "\n"
+            "    def _rescale_all(self, to_norm):\n"
+            "        if self._has_output_scaling:\n            for out_vec in self._vectors['output'].values():\n"
+            "                if to_norm:\n                    out_vec.scale_to_norm()\n                else:\n                    out_vec.scale_to_phys()\n"
+            "        if self._has_resid_scaling:\n            for res_vec in self._vectors['residual'].values():\n"
+            "                if not to_norm:\n                    " + res_else + "\n                else:\n                    res_vec.scale_to_norm()\n")
+
+
 _EC = 'openmdao/core/explicitcomponent.py'
 _IC = 'openmdao/core/implicitcomponent.py'
 selftest(
@@ -761,6 +1000,20 @@ selftest(
     Mutant('who-transfer-mode', 'openmdao/core/group.py', "                    vec_inputs.scale_to_phys(mode='rev')", "                    vec_inputs.scale_to_phys()", 'C08.who'),
     Mutant('who-transfer-unpaired', 'openmdao/core/group.py', "                    xfer._transfer(vec_inputs, self._vectors['output'][vec_name], mode)\n                    vec_inputs.scale_to_phys()\n",
            "                    xfer._transfer(vec_inputs, self._vectors['output'][vec_name], mode)\n", 'C08.who'),
+    Twin('twin-vec-early-return', DVEC, "        data *= scaler\n        if adder is not None:  # nonlinear only\n            data += adder",
+         "        data *= scaler\n        if adder is None:\n            return\n        data += adder"),
+    Twin('twin-vec-unpack-elif', DVEC,
+         "        if mode == 'rev':\n            self._scale_forward(*self._scaling)\n        else:\n            if self._has_solver_ref:\n                self._scale_reverse(self._nlvec._scaling[0], None)\n            else:\n                self._scale_reverse(*self._scaling)",
+         "        if mode != 'rev':\n            if not self._has_solver_ref:\n                scaler, adder = self._scaling\n                self._scale_reverse(scaler, adder)\n                return\n            nl = self._nlvec._scaling[0]\n            self._scale_reverse(nl, None)\n        else:\n            self._scale_forward(*self._scaling)"),
+    Mutant('vec-unpack-swapped', DVEC,
+           "        if mode == 'rev':\n            self._scale_forward(*self._scaling)\n        else:",
+           "        if mode == 'rev':\n            adder, scaler = self._scaling\n            self._scale_forward(scaler, adder)\n        else:", 'C08.vec'),
+    Mutant('vec-early-return-skips-scaler', DVEC, "        data = self.asarray()\n        if adder is not None:  # nonlinear only\n            data -= adder\n        data /= scaler",
+           "        data = self.asarray()\n        if adder is None:\n            return\n        data -= adder\n        data /= scaler", 'C08.vec'),
+    Twin('twin-ctx-helper', SYSTEM, _CTX_ALL_OLD, _ctx_all_helper()),
+    Mutant('ctx-helper-asymmetric', SYSTEM, _CTX_ALL_OLD, _ctx_all_helper(res_else='pass'), 'C08.ctx'),
+    Mutant('ctx-helper-second-user', SYSTEM, _CTX_ALL_OLD,
+           _ctx_all_helper(extra="\n    def _force_scaled(self):\n        self._rescale_all(True)\n"), 'C08.who'),
     Twin('twin-ctx-order', SYSTEM,
          "            if self._has_output_scaling:\n                for vec in outputs:\n                    vec.scale_to_norm()\n\n            if self._has_resid_scaling:\n                for vec in residuals:\n                    vec.scale_to_norm()",
          "            if self._has_resid_scaling:\n                for vec in residuals:\n                    vec.scale_to_norm()\n\n            if self._has_output_scaling:\n                for vec in outputs:\n                    vec.scale_to_norm()"),
